@@ -204,6 +204,10 @@ def main():
                         cases.append(vcore.Case(body, hn, ('corpus', fn), 'corpus'))
     cases.extend(P.generate(rng, a.tier))
     cases = [c for c in cases if c.harness in exes]
+    # -O0 + counters on a loaded machine: harnesses that hand a baton between spinning threads (C10) can be silent for longer
+    # than the 45 s after which a normal check calls it a hang
+    _rl = vcore.run_lines
+    vcore.run_lines = lambda *aa, **kw: _rl(*aa, **dict({'stall': 300}, **kw))
     t1 = time.time()
     impl, _, crashes, _ = vcore.evaluate(P, cases, exes, want_model=False, budget_s=1800, stop_after=10 ** 9)
     t_run = time.time() - t1
